@@ -41,6 +41,11 @@ type Manager struct {
 	maxSize      int64
 	sharedCaches map[string]*sharedCacheElem
 	mu           sync.Mutex
+	// Incremented every time a transaction that wrote to a shared cache is
+	// committed or aborted. A read only transaction remembers the value it
+	// started with, if it has changed the shared caches may be ahead of the
+	// storage snapshot the transaction is reading from.
+	generation atomic.Uint64
 }
 
 func NewManager(maxSize int64) *Manager {
@@ -111,13 +116,31 @@ type Transaction struct {
 	mu            sync.Mutex
 	manager       *Manager
 	failed        atomic.Bool
+	// The manager generation when the transaction was created. It must be
+	// created before the storage transaction it accompanies is opened.
+	startGeneration uint64
 }
 
 func (m *Manager) NewTransaction() *Transaction {
 	return &Transaction{
-		writtenCaches: make(map[string]*sharedCacheElem),
-		manager:       m,
+		writtenCaches:   make(map[string]*sharedCacheElem),
+		manager:         m,
+		startGeneration: m.generation.Load(),
 	}
+}
+
+// Runs f on a private cache that is never shared.
+func (t *Transaction) withColdCache(createFn func() (Cachable, error), f func(cacheToUse Cachable) error) error {
+	freshCachable, err := createFn()
+	if err != nil {
+		t.failed.Store(true)
+		return fmt.Errorf("error while creating fresh read only cold cache: %w", err)
+	}
+	if err := f(freshCachable); err != nil {
+		t.failed.Store(true)
+		return fmt.Errorf("error while executing cache operation: %w", err)
+	}
+	return nil
 }
 
 func (t *Transaction) With(name string, readOnly bool, createFn func() (Cachable, error), f func(cacheToUse Cachable) error) error {
@@ -129,6 +152,21 @@ func (t *Transaction) With(name string, readOnly bool, createFn func() (Cachable
 	 * with common enemies including concurrent read-writes to maps and scrapped
 	 * caches. */
 	// ---------------------------
+	/* A shared cache mirrors the latest committed state of the storage. A read
+	 * only transaction reads from the storage snapshot that was current when
+	 * it started. If a write has been committed since, the shared cache may
+	 * contain items the snapshot does not have (and the other way round), and
+	 * anything we load into it from our older snapshot would poison it for
+	 * everyone else. In that case we stay away from the shared caches. */
+	if readOnly && t.manager.generation.Load() != t.startGeneration {
+		t.mu.Lock()
+		_, isWriter := t.writtenCaches[name]
+		t.mu.Unlock()
+		if !isWriter {
+			log.Debug().Str("name", name).Msg("Storage snapshot is older than shared cache, using cold cache")
+			return t.withColdCache(createFn, f)
+		}
+	}
 	// We start with manager lock so others don't try to create the same cache
 	t.manager.mu.Lock()
 	if existingCache, ok := t.manager.sharedCaches[name]; ok {
@@ -160,8 +198,14 @@ func (t *Transaction) With(name string, readOnly bool, createFn func() (Cachable
 				* the lock with a fresh cold cache. The idea is, if there is an
 				* available cache then use it, otherwise use a cold cache to keep
 				* running. */
-				if existingCache.mu.TryRLock() {
-					defer existingCache.mu.RUnlock()
+				/* Although we only read, we need the cache for ourselves. The
+				 * cached index reads missing items through the bucket of the
+				 * transaction that is using it (see UpdateBucket), two readers
+				 * with different storage transactions cannot share it at the
+				 * same time: one would read through the bucket of the other,
+				 * which may already be closed. */
+				if existingCache.mu.TryLock() {
+					defer existingCache.mu.Unlock()
 				} else {
 					// We couldn't get the lock, so we'll use a clean cold cache to
 					// not block any ready only requests such as search and just
@@ -257,8 +301,9 @@ func (t *Transaction) With(name string, readOnly bool, createFn func() (Cachable
 	}
 	// We know the following locks will succeed because it is a new cache.
 	if readOnly {
-		s.mu.RLock()
-		defer s.mu.RUnlock()
+		// Exclusive for the same reason as above
+		s.mu.Lock()
+		defer s.mu.Unlock()
 	} else {
 		// The following shared cache lock is released when the transaction is done.
 		s.mu.Lock()
@@ -290,6 +335,8 @@ func (t *Transaction) Commit(fail bool) {
 	}
 	t.manager.mu.Lock()
 	defer t.manager.mu.Unlock()
+	// From now on the shared caches are ahead of any older storage snapshot
+	t.manager.generation.Add(1)
 	failed := t.failed.Load() || fail
 	for name, s := range t.writtenCaches {
 		if failed {
